@@ -64,9 +64,18 @@ def bounded(rep, tier, seed):
     distinct = set()
     bad = []
     dates = ["2023-07-01"] if tier == "quick" else ["2015-01-01", "2019-07-01", "2023-07-01"]
+    runs = []
     for d in dates:
+        runs.append((d, "base", popgen.population(["family", "single_parent", "pensioners"], year=int(d[:4]), seed=seed)))
+        # a household that falls into TWO wohngeldrechtliche Teilhaushalte (the priority flags of its two
+        # Bedarfsgemeinschaften are supplied and differ): wthh-level columns are not constant within hh_id
+        mixed = popgen.population(["three_gen", "couple"], year=int(d[:4]), seed=seed)
+        flag = (mixed["hh_id"] == 0) & (mixed["alter"] >= 60)
+        mixed["wohngeld_vorrang_bg"] = flag.to_numpy()
+        mixed["wohngeld_kinderzuschl_vorrang_bg"] = flag.to_numpy()
+        runs.append((d, "mixed", mixed))
+    for d, kind_, pop in runs:
         e = venv.Env(d)
-        pop = popgen.population(["family", "single_parent", "pensioners"], year=int(d[:4]), seed=seed)
         nodes = apirel.function_nodes(e, None, list(pop.columns))
         allv, _ = apirel.simulate(e, pop, targets=nodes)
         defaults = [t for t in DEFAULT_TARGETS if t in allv.columns]
@@ -77,7 +86,12 @@ def bounded(rep, tier, seed):
         by_class = {}
         for n_ in nodes:
             by_class.setdefault(venv.classify_node(n_, fno[n_]), []).append(n_)
-        if tier == "quick":
+        if kind_ == "mixed":
+            w = allv["wthh_id"] if "wthh_id" in allv.columns else None
+            if w is None or pd.Series(w.to_numpy()).groupby(pop["hh_id"].to_numpy()).nunique().max() < 2:
+                bad.append({"what": f"{d}: the mixed-household population has no household with two wthh (vacuous)", "node": "wthh_id", "date": d, "kind": "vacuity"})
+            sample = [n_ for n_ in nodes if n_.endswith("_wthh") or n_ == "wthh_id"]
+        elif tier == "quick":
             sample = []
             for cls, lst in by_class.items():
                 sample += rng.sample(lst, min(len(lst), 8 if cls == "scalar_rule" else 5))
@@ -145,6 +159,9 @@ def run(tier="quick", seed=0, jobs=16):
     rep.assumptions = ["purity of node functions (E3) and dtype = declared type (C03) are proved elsewhere; the substitution property through interface.py is explored on seeded populations, not proved",
                        "values re-derived through another time unit may differ in the last float bits: comparison at 1e-12 relative / 1e-9 absolute on the default targets"]
     gbad, gn = guards(rep, tier)
+    from props import C11 as c11
+
+    c11.annotation_table(rep)  # declared type of every aggregate = GEP-4 table (36 obligations)
     bad, n_eval, n_dist = bounded(rep, tier, seed)
     for b in gbad[:3]:
         rep.violation(f"guard:{b[:80]}", b, {"what": b}, True)
